@@ -234,8 +234,31 @@ type MessageVfMaybeEnumUint64 struct {
 
 func (*MessageVfMaybeEnumUint64) GetID() uint32 { return 50032 }
 
+type vfCelsius float32
+
+type vfMode uint8
+
+type MessageVfMaybeNamedTypes struct {
+	A uint8
+	T vfCelsius
+	M vfMode
+	B uint16
+	C [2]vfMode
+}
+
+func (*MessageVfMaybeNamedTypes) GetID() uint32 { return 50033 }
+
+// an enum-typed field whose mavenum tag was forgotten
+type MessageVfMaybeUntaggedEnum struct {
+	A uint8
+	E vfEnumA
+	B uint32
+}
+
+func (*MessageVfMaybeUntaggedEnum) GetID() uint32 { return 50034 }
+
 func maybeMessages() []message.Message {
-	return []message.Message{&MessageVfMaybeEnumInt16{}, &MessageVfMaybeEnumInt8Array{}, &MessageVfMaybeEnumUint64{}}
+	return []message.Message{&MessageVfMaybeEnumInt16{}, &MessageVfMaybeEnumInt8Array{}, &MessageVfMaybeEnumUint64{}, &MessageVfMaybeNamedTypes{}, &MessageVfMaybeUntaggedEnum{}}
 }
 
 func userMessages() []message.Message {
